@@ -1,6 +1,6 @@
 #!/bin/bash
 # Runs /repo's test suite (guard off) and checks every test in BASELINE.json's stable_pass list passes.
-cd /repo && GOFLAGS=-mod=mod GOPROXY=off go test -json -vet=off -count=1 -timeout 25m ./... > /tmp/verif-baseline.json 2>/dev/null
+cd "${1:-/repo}" && GOFLAGS=-mod=mod GOPROXY=off go test -json -vet=off -count=1 -timeout 25m ./... > /tmp/verif-baseline.json 2>/dev/null
 python3 - <<'PY'
 import json
 base=json.load(open('/root/.vp/BASELINE.json'))
